@@ -1,9 +1,244 @@
 import JominiModel.Driver.Util
+import JominiModel.Model.BinDe
+import JominiModel.Spec.BinDoc
+/-
+ops of property C04 (see harness/src/props/c04.rs for the case line formats).
+Parsing of the case-line syntaxes lives here (driver code, outside the verified model).
+-/
 namespace Jomini.Driver.C04
-open Jomini Jomini.Driver
+open Jomini Jomini.Driver Jomini.BinDe
 
-/-- ops of property C04 (none yet). -/
+def dropPrefix? (pre : String) (s : List Char) : Option (List Char) :=
+  let p := pre.toList
+  if s.take p.length == p then some (s.drop p.length) else none
+
+def isIdent (c : Char) : Bool := c.isAlphanum || c == '_'
+
+mutual
+partial def parseTy (s : List Char) : Option (Ty × List Char) :=
+  let kws : List (String × Ty) := [("bool", .bool), ("i64", .i64), ("u64", .u64), ("i32", .i32), ("u32", .u32),
+    ("f64", .f64), ("f32", .f32), ("str", .str), ("any", .any), ("ign", .ign)]
+  let kw := kws.findSome? (fun (k, t) =>
+    match dropPrefix? k s with
+    | some r => match r with
+      | c :: _ => if isIdent c || c == '(' then none else some (t, r)
+      | [] => some (t, r)
+    | none => none)
+  match kw with
+  | some x => some x
+  | none =>
+    let wrap (pre : String) (mk : Ty → Ty) : Option (Ty × List Char) :=
+      match dropPrefix? pre s with
+      | some r => match parseTy r with
+        | some (t, ')' :: r2) => some (mk t, r2)
+        | _ => none
+      | none => none
+    match wrap "opt(" .opt with
+    | some x => some x
+    | none =>
+    match wrap "seq(" .seq with
+    | some x => some x
+    | none =>
+    match wrap "map(" .map with
+    | some x => some x
+    | none =>
+    match wrap "prop(" .prop with
+    | some x => some x
+    | none =>
+    match dropPrefix? "st(" s with
+    | some r => (parseFields r).map (fun (fs, r2) => (.struct fs, r2))
+    | none =>
+    match dropPrefix? "en(" s with
+    | some r =>
+      let body := r.takeWhile (· != ')')
+      let rest := (r.dropWhile (· != ')')).drop 1
+      let vs := ((String.ofList body).splitOn ";").filter (· != "")
+      some (.enum vs, rest)
+    | none => none
+
+/-- `name[#id]:T;name:T;...)` -/
+partial def parseFields (s : List Char) : Option (Fields × List Char) :=
+  match s with
+  | ')' :: r => some (.nil, r)
+  | _ =>
+    let nameTok := s.takeWhile (· != ':')
+    match s.dropWhile (· != ':') with
+    | ':' :: r =>
+      let (name, tok) :=
+        match (String.ofList nameTok).splitOn "#" with
+        | [n, i] => (n, i.toNat?.getD 0)
+        | _ => (String.ofList nameTok, 0)
+      match parseTy r with
+      | some (t, r2) =>
+        let r3 := match r2 with | ';' :: x => x | x => x
+        (parseFields r3).map (fun (fs, r4) => (Fields.cons name tok t fs, r4))
+      | none => none
+    | _ => none
+end
+
+def parseRoot (s : String) : Option RootTy :=
+  match dropPrefix? "tst(" s.toList with
+  | some r => match parseFields r with
+    | some (fs, []) => some (.tok fs)
+    | _ => none
+  | none => match parseTy s.toList with
+    | some (t, []) => some (.plain t)
+    | _ => none
+
+def parseCfg (s : String) : Option Cfg :=
+  match s.splitOn "/" with
+  | [st, _, e] => do
+    let strat ← match st with | "E" => some Strategy.error | "S" => some .stringify | "I" => some .ignore | _ => none
+    let entries ← if e == "-" then some [] else
+      (e.splitOn ",").mapM (fun p => match p.splitOn ":" with
+        | [i, n] => do pure ((← i.toNat?), (← parseHex n))
+        | _ => none)
+    pure { strat, entries }
+  | _ => none
+
+def parseRgb (v : String) : Option Rgb :=
+  match (v.splitOn ".").mapM (·.toNat?) with
+  | some [r, g, b] => some { r, g, b, a := none }
+  | some [r, g, b, a] => some { r, g, b, a := some a }
+  | _ => none
+
+def parseTok (w : String) : Option Tok :=
+  match w.splitOn ":" with
+  | ["Open"] => some .open | ["Close"] => some .close | ["Equal"] => some .equal
+  | ["Trunc"] => some .trunc | ["Stray"] => some .stray
+  | ["U32", v] => v.toNat?.map .u32 | ["U64", v] => v.toNat?.map .u64
+  | ["I32", v] => v.toInt?.map .i32 | ["I64", v] => v.toInt?.map .i64
+  | ["Bool", v] => some (.bool (v == "1"))
+  | ["Q", v] => (parseHex v).map .quoted | ["U", v] => (parseHex v).map .unquoted
+  | ["F32", v] => (parseHex v).map .f32 | ["F64", v] => (parseHex v).map .f64
+  | ["Id", v] => v.toNat?.map .id
+  | _ => none
+
+def parseToks (s : String) : Option (List Tok) :=
+  if s == "-" then some [] else (s.splitOn ",").mapM parseTok
+
+def parseTTok (w : String) : Option TTok :=
+  match w.splitOn ":" with
+  | ["M"] => some .mixed | ["Eq"] => some .equal
+  | ["B", v] => some (.bool (v == "1"))
+  | ["U32", v] => v.toNat?.map .u32 | ["U64", v] => v.toNat?.map .u64
+  | ["I32", v] => v.toInt?.map .i32 | ["I64", v] => v.toInt?.map .i64
+  | ["Q", v] => (parseHex v).map .quoted | ["U", v] => (parseHex v).map .unquoted
+  | ["F32", v] => (parseHex v).map .f32 | ["F64", v] => (parseHex v).map .f64
+  | ["T", v] => v.toNat?.map .token
+  | ["Rgb", v] => (parseRgb v).map .rgb
+  | [x] =>
+    match x.toList with
+    | 'A' :: r => (String.ofList r).toNat?.map .array
+    | 'O' :: r => (String.ofList r).toNat?.map .object
+    | 'E' :: r => (String.ofList r).toNat?.map .end_
+    | _ => none
+  | _ => none
+
+def parseTape (s : String) : Option (List TTok) :=
+  if s == "-" then some [] else (s.splitOn ",").mapM parseTTok
+
+/-! binary documents -/
+
+def isDelim (c : Char) : Bool := c == '(' || c == ')' || c == ';' || c == '=' || c == '~'
+
+def parseBLeaf (w : String) : Option BLeaf :=
+  match w.splitOn ":" with
+  | ["I32", v] => v.toInt?.map .i32 | ["I64", v] => v.toInt?.map .i64
+  | ["U32", v] => v.toNat?.map .u32 | ["U64", v] => v.toNat?.map .u64
+  | ["Bool", v] => some (.bool (v == "1"))
+  | ["F32", v] => (parseHex v).map .f32 | ["F64", v] => (parseHex v).map .f64
+  | ["Q", v] => (parseHex v).map .quoted | ["U", v] => (parseHex v).map .unquoted
+  | ["Id", v] => v.toNat?.map .id
+  | _ => none
+
+mutual
+partial def parseBNode (s : List Char) : Option (BNode × List Char) :=
+  let w := String.ofList (s.takeWhile (fun c => !isDelim c))
+  let r := s.dropWhile (fun c => !isDelim c)
+  if w == "O" then
+    match r with
+    | '(' :: ')' :: r2 => some (.obj .nil, r2)
+    | '(' :: r2 => (parseBFields r2 true).map (fun (fs, r3) => (.obj fs, r3))
+    | _ => none
+  else if w == "A" then
+    match r with
+    | '(' :: ')' :: r2 => some (.arr .nil, r2)
+    | '(' :: r2 => (parseBNodes r2).map (fun (vs, r3) => (.arr vs, r3))
+    | _ => none
+  else if w.startsWith "Rgb:" then
+    (parseRgb (w.drop 4).toString).map (fun c => (.rgb c, r))
+  else (parseBLeaf w).map (fun l => (.leaf l, r))
+
+/-- fields up to `)` (nested) or end of input (root) -/
+partial def parseBFields (s : List Char) (nested : Bool) : Option (BFields × List Char) :=
+  let ghosts := (s.takeWhile (· == '~')).length
+  let s1 := s.dropWhile (· == '~')
+  let kw := String.ofList (s1.takeWhile (fun c => !isDelim c))
+  match s1.dropWhile (fun c => !isDelim c), parseBLeaf kw with
+  | '=' :: r, some k =>
+    match parseBNode r with
+    | some (v, ';' :: r2) => (parseBFields r2 nested).map (fun (fs, r3) => (.cons ghosts k v fs, r3))
+    | some (v, ')' :: r2) => if nested then some (.cons ghosts k v .nil, r2) else none
+    | some (v, []) => if nested then none else some (.cons ghosts k v .nil, [])
+    | _ => none
+  | _, _ => none
+
+partial def parseBNodes (s : List Char) : Option (BNodes × List Char) :=
+  match parseBNode s with
+  | some (v, ';' :: r) => (parseBNodes r).map (fun (vs, r2) => (.cons v vs, r2))
+  | some (v, ')' :: r) => some (.cons v .nil, r)
+  | _ => none
+end
+
+def parseBDoc (s : String) : Option BDoc :=
+  if s == "-" then some .nil else
+  match parseBFields s.toList false with
+  | some (d, []) => some d
+  | _ => none
+
+/-! printing -/
+
+def showRgb (c : Rgb) : String :=
+  "Rgb:" ++ String.intercalate "." (c.comps.map toString)
+
+def showTok : Tok → String
+  | .open => "Open" | .close => "Close" | .equal => "Equal"
+  | .u32 n => s!"U32:{n}" | .u64 n => s!"U64:{n}" | .i32 n => s!"I32:{n}" | .i64 n => s!"I64:{n}"
+  | .bool b => if b then "Bool:1" else "Bool:0"
+  | .quoted b => "Q:" ++ toHex b | .unquoted b => "U:" ++ toHex b
+  | .f32 r => "F32:" ++ toHex r | .f64 r => "F64:" ++ toHex r
+  | .id n => s!"Id:{n}" | .rgb c => showRgb c | .trunc => "Trunc" | .stray => "Stray"
+
+def showTTok : TTok → String
+  | .array e => s!"A{e}" | .object e => s!"O{e}" | .mixed => "M" | .equal => "Eq" | .end_ i => s!"E{i}"
+  | .bool b => if b then "B:1" else "B:0"
+  | .u32 n => s!"U32:{n}" | .u64 n => s!"U64:{n}" | .i64 n => s!"I64:{n}" | .i32 n => s!"I32:{n}"
+  | .quoted b => "Q:" ++ toHex b | .unquoted b => "U:" ++ toHex b
+  | .f32 r => "F32:" ++ toHex r | .f64 r => "F64:" ++ toHex r
+  | .token id => s!"T:{id}" | .rgb c => showRgb c
+
+def joinOrDash (xs : List String) : String := if xs.isEmpty then "-" else String.intercalate "," xs
+
 def handle : Handler
+  | ["bde_tape", cfg, ty, tape, _] => do
+    let c ← parseCfg cfg; let t ← parseRoot ty; let tp ← parseTape tape
+    pure (renderRes (deTape c t tp))
+  | ["bde_slice", cfg, ty, raw, _] => do
+    let c ← parseCfg cfg; let t ← parseRoot ty; let toks ← parseToks raw
+    pure (renderRes (deOndemand c t toks))
+  | ["bde_stream", cfg, ty, raw, _, _, _] => do
+    let c ← parseCfg cfg; let t ← parseRoot ty; let toks ← parseToks raw
+    pure (renderRes (deStream c t toks))
+  | ["bde_spec", cfg, ty, bd] => do
+    let c ← parseCfg cfg; let t ← parseRoot ty; let d ← parseBDoc bd
+    pure (renderRes (valueOfBin c t d))
+  | ["bde_toks", bd] => do
+    let d ← parseBDoc bd
+    pure (joinOrDash ((tokensOf d).map showTok))
+  | ["bde_tapeof", bd] => do
+    let d ← parseBDoc bd
+    pure (match tapeOf d with | some t => joinOrDash (t.map showTTok) | none => "err:parse")
   | _ => none
 
 end Jomini.Driver.C04
